@@ -845,6 +845,8 @@ func siteOf(class string) string {
 		return "frac/active_index.go:Search"
 	case "ingest-stuck-after-transient-fsync-error", "ack-after-failed-fsync":
 		return "frac/file_writer.go:syncLoop"
+	case "invisible-during-seal":
+		return "fracmanager/fraction_provider.go:newActiveRef"
 	case "fetch-multi-batch":
 		return "fracmanager/list.go:FilterInRange"
 	case "late-doc-invisible":
